@@ -756,6 +756,11 @@ pub enum E2eVerdict {
 }
 
 pub fn e2e_query(hz: &HkZone, qn: &Name, qtype: u16, limits: Option<(u16, u16)>) -> Result<E2eVerdict, Fail> {
+    e2e_query_opt(hz, qn, qtype, limits.map(|(s, h)| (Some(s), Some(h))))
+}
+
+/// as `e2e_query`, with each limit optionally left at the builder's default (soft 100, hard 500)
+pub fn e2e_query_opt(hz: &HkZone, qn: &Name, qtype: u16, limits: Option<(Option<u16>, Option<u16>)>) -> Result<E2eVerdict, Fail> {
     use futures_util::StreamExt;
     use hickory_net::dnssec::DnssecDnsHandle;
     use hickory_net::xfer::DnsHandle;
@@ -771,7 +776,7 @@ pub fn e2e_query(hz: &HkZone, qn: &Name, qtype: u16, limits: Option<(u16, u16)>)
     };
     let mut dh = DnssecDnsHandle::with_trust_anchor(handle, zb::trust_anchor(hz)).validation_cache_size(256);
     if let Some((soft, hard)) = limits {
-        dh = dh.nsec3_iteration_limits(Some(soft), Some(hard));
+        dh = dh.nsec3_iteration_limits(soft, hard);
     }
     let query = Query::new(qn.clone(), rtype(qtype));
     let fut = async move {
